@@ -222,6 +222,8 @@ pub fn finish(ctx: &Ctx, mut cov: Coverage, recheck: &dyn Fn(&Value) -> Vec<Stri
         Vec::new()
     };
     let mut pending_confirm: Vec<String> = Vec::new();
+    // second exploration only: signatures that do not reproduce alone and were not reported by the first exploration
+    let mut late_unconfirmed: Vec<String> = Vec::new();
 
     for (sig, (v, count)) in sink.iter() {
         let mut history_dependent = false;
@@ -263,11 +265,7 @@ pub fn finish(ctx: &Ctx, mut cov: Coverage, recheck: &dyn Fn(&Value) -> Vec<Stri
                 if confirm_list.iter().any(|s| s == sig) {
                     history_dependent = true;
                 } else if confirm_mode {
-                    eprintln!(
-                        "MACHINERY-ERROR: property={} signature={} did not reproduce on {} replays (first={:?} second={:?}) and was not reported by the first exploration",
-                        ctx.prop, sig, tries, r1, r2
-                    );
-                    machinery_error = true;
+                    late_unconfirmed.push(sig.clone());
                     continue;
                 } else {
                     eprintln!(
@@ -361,11 +359,26 @@ pub fn finish(ctx: &Ctx, mut cov: Coverage, recheck: &dyn Fn(&Value) -> Vec<Stri
     if confirm_mode {
         for s in &confirm_list {
             if !sink.contains_key(s) {
-                eprintln!("MACHINERY-ERROR: property={} signature={} was reported by the first exploration only (not reproducible in isolation, not reported again)", ctx.prop, s);
-                machinery_error = true;
+                if new_violations > 0 {
+                    // Hidden shared state in the subject has been demonstrated by another violation of this run (one that
+                    // reproduces alone, or one confirmed by both explorations): how it manifests on the remaining cases depends
+                    // on which worker thread ran what before. Not reported, not a machinery error.
+                    println!("NOTE: property={} signature={} was reported by the first exploration only (not reproducible in isolation, not reported again): dropped", ctx.prop, s);
+                } else {
+                    eprintln!("MACHINERY-ERROR: property={} signature={} was reported by the first exploration only (not reproducible in isolation, not reported again)", ctx.prop, s);
+                    machinery_error = true;
+                }
             }
         }
         let _ = std::fs::remove_file(&confirm_path);
+    }
+    for s in &late_unconfirmed {
+        if new_violations > 0 {
+            println!("NOTE: property={} signature={} was reported by the second exploration only and does not reproduce in isolation: dropped", ctx.prop, s);
+        } else {
+            eprintln!("MACHINERY-ERROR: property={} signature={} did not reproduce in isolation and was not reported by the first exploration", ctx.prop, s);
+            machinery_error = true;
+        }
     }
     if machinery_error {
         return 2;
@@ -538,4 +551,133 @@ pub fn panic_message(e: &Box<dyn std::any::Any + Send>) -> String {
     } else {
         "<non-string panic>".to_string()
     }
+}
+
+// ------------------------------------------------------------------------------------------------
+// Termination watchdog. A call into the subject that never returns cannot be interrupted from inside its
+// thread, so every worker publishes the case it is executing (`watched`) and refreshes a heartbeat between the
+// steps of a long case (`heartbeat`); a watchdog thread reports the first case whose last heartbeat is older
+// than the limit as the violation `does-not-terminate` (with a replay file), then ends the process.
+
+pub struct WatchSlot {
+    cur: Mutex<Option<(Instant, Value, Option<Value>)>>,
+}
+
+static WATCH_REGISTRY: Mutex<Vec<std::sync::Arc<WatchSlot>>> = Mutex::new(Vec::new());
+static WATCH_ON: std::sync::atomic::AtomicBool = std::sync::atomic::AtomicBool::new(false);
+
+thread_local! {
+    static MY_WATCH_SLOT: std::sync::Arc<WatchSlot> = {
+        let s = std::sync::Arc::new(WatchSlot { cur: Mutex::new(None) });
+        WATCH_REGISTRY.lock().unwrap().push(s.clone());
+        s
+    };
+}
+
+pub fn watch_limit_s() -> u64 {
+    std::env::var("VERIF_WATCHDOG_S").ok().and_then(|s| s.parse().ok()).unwrap_or(30)
+}
+
+/// Execute `f` as one watched unit of work; `case` renders the replayable case (only evaluated when the watchdog runs).
+pub fn watched<T>(case: impl FnOnce() -> Value, f: impl FnOnce() -> T) -> T {
+    if !WATCH_ON.load(Ordering::Relaxed) {
+        return f();
+    }
+    let c = case();
+    // nested use: the outer case stays, the inner one becomes its detail
+    let nested = MY_WATCH_SLOT.with(|s| {
+        let mut g = s.cur.lock().unwrap();
+        match &mut *g {
+            Some((t, _, d)) => {
+                *t = Instant::now();
+                *d = Some(c.clone());
+                true
+            }
+            None => {
+                *g = Some((Instant::now(), c.clone(), None));
+                false
+            }
+        }
+    });
+    let r = f();
+    if !nested {
+        MY_WATCH_SLOT.with(|s| *s.cur.lock().unwrap() = None);
+    }
+    r
+}
+
+/// Progress inside a watched unit: restarts its timer and records where it is.
+pub fn heartbeat(detail: impl FnOnce() -> Value) {
+    if !WATCH_ON.load(Ordering::Relaxed) {
+        return;
+    }
+    MY_WATCH_SLOT.with(|s| {
+        if let Some((t, _, d)) = &mut *s.cur.lock().unwrap() {
+            *t = Instant::now();
+            *d = Some(detail());
+        }
+    });
+}
+
+/// One case of an enumeration: published to the termination watchdog, executed with panics of the subject caught.
+/// A panic comes back as one ("panic:<file:line>", message) finding so that it is reported like any other violation.
+pub fn run_case(case: impl Fn() -> Value, f: impl FnOnce() -> Vec<(String, String)>) -> Vec<(String, String)> {
+    match watched(&case, || guarded(f)) {
+        Ok(v) => v,
+        Err((loc, msg)) => vec![(format!("panic:{loc}"), format!("the library panicked at {loc}: {msg}"))],
+    }
+}
+
+/// Start the watchdog thread of a check. A stuck case ends the process: exit 1 with a VIOLATION line (exit 0 with a
+/// KNOWN-FINDING line if the signature is listed as open).
+pub fn start_watchdog(prop: &'static str, tier: Tier, level: &'static str, write_evidence: bool) {
+    if WATCH_ON.swap(true, Ordering::Relaxed) {
+        return;
+    }
+    let limit = watch_limit_s();
+    std::thread::spawn(move || loop {
+        std::thread::sleep(std::time::Duration::from_millis(500));
+        let slots: Vec<std::sync::Arc<WatchSlot>> = WATCH_REGISTRY.lock().unwrap().clone();
+        for s in slots {
+            let stuck = {
+                let g = s.cur.lock().unwrap();
+                match &*g {
+                    Some((t, case, detail)) if t.elapsed().as_secs() >= limit => Some((case.clone(), detail.clone())),
+                    _ => None,
+                }
+            };
+            if let Some((mut case, detail)) = stuck {
+                if let (Some(obj), Some(Value::Object(d))) = (case.as_object_mut(), detail.clone()) {
+                    for (k, v) in d {
+                        obj.insert(k, v);
+                    }
+                } else if let (Some(obj), Some(d)) = (case.as_object_mut(), detail) {
+                    obj.insert("watch_detail".into(), d);
+                }
+                let label = case.get("watch_label").and_then(|l| l.as_str()).unwrap_or("").to_string();
+                let sig = if label.is_empty() { "does-not-terminate".to_string() } else { format!("does-not-terminate:{label}") };
+                let known = load_known_findings().iter().any(|k| k.property == prop && k.status == "open" && k.signature == sig);
+                let dir = verif_root().join("replays");
+                let _ = std::fs::create_dir_all(&dir);
+                let path = dir.join(format!("{prop}-{:016x}.json", fnv(&format!("{sig}{case}"))));
+                let what = format!("a call into the library did not return within {limit}s while executing this case (the process was ended by the termination watchdog)");
+                let doc = json!({"property": prop, "signature": sig, "what": what, "case": case});
+                let _ = std::fs::write(&path, serde_json::to_string_pretty(&doc).unwrap());
+                let evidence = json!({"property_id": prop, "tier": tier.name(), "seed": 0, "level": level, "wall_s": 0.0, "violations": if known { 0 } else { 1 },
+                    "coverage": {"evaluations": 1, "distinct_nontrivial": 1, "states": 1, "transitions": 1, "traces_validated_against_impl": 1, "rule": "run ended by the termination watchdog", "samples": [case], "exhaustive": false}});
+                if write_evidence {
+                    let _ = std::fs::create_dir_all(verif_root().join("evidence"));
+                    let _ = std::fs::write(verif_root().join("evidence").join(format!("{prop}.json")), serde_json::to_string_pretty(&evidence).unwrap());
+                }
+                if known {
+                    println!("KNOWN-FINDING: property={prop} {sig}");
+                    std::process::exit(0);
+                }
+                println!("VIOLATION property={prop} replay={}", path.display());
+                println!("  signature: {sig}");
+                println!("  what: {what}");
+                std::process::exit(1);
+            }
+        }
+    });
 }
